@@ -29,7 +29,7 @@ COMPONENTS = {"real": ["ECAgent.Environments.SpaceWorld.get_agents_at", "add_age
               "stub": ["agents are plain ECAgent agents created by the harness"]}
 PROBES = ["axis_leeway_larger", "general_leeway_larger", "negative_leeway", "empty_answer", "coincident_agents",
           "query_outside_world", "seam_crossing_box", "agent_on_face", "wrap_world", "moved_since_placement", "rejected_duplicate_add", "model_lifecycle_op", "wrap_mode_switched", "agent_with_position_subclass_component", "agent_is_an_environment", "ops_from_inside_a_timestep",
-          "grid_world_with_half_cell_positions", "infinite_leeway", "history_continued_on_a_copy"]
+          "grid_world_with_half_cell_positions", "infinite_leeway", "history_continued_on_a_copy", "leeways_left_to_their_defaults"]
 TECHNIQUE = "deterministic simulation: positional queries inside seeded move/remove histories vs an exact geometric filter (seam-aware in wrapping worlds)"
 LEVEL_TEXT = ("Seeded search over placements, move histories and query boxes; every answer must equal, as an ordered id list, an "
               "exact geometric filter over the reference positions (distance around the seam in wrapping worlds); the query "
@@ -74,7 +74,8 @@ def generate(rng, tier):
     for _ in range(rng.randint(3, 50 if tier == "thorough" else 30)):
         r = rng.random()
         if r < 0.5 or n == 0:
-            ops.append({"op": "query", "p": [lattice(rng, ref, ax) for ax in range(3)], "l": gen_leeways(rng, ref)})
+            ops.append({"op": "query", "p": [lattice(rng, ref, ax) for ax in range(3)], "l": gen_leeways(rng, ref),
+                        "omit_defaults": rng.random() < 0.3})
         elif r < 0.75:
             ops.append({"op": "move", "k": rng.randrange(n), "d": [rng.randint(-3, 3) * step for _ in range(3)]})
         elif r < 0.85:
@@ -161,8 +162,12 @@ def execute(sc, ctx):
                         onface += 1
             before = [(a.id, get_pos(a)) for a in env]
             rp, rl = ref.real(p), ref.real(lw)
-            got = ctx.expect_ok("get_agents_at", env.get_agents_at, rp[0], rp[1], rp[2], leeway=rl[0], x_leeway=rl[1],
-                                y_leeway=rl[2], z_leeway=rl[3])
+            kw = {"leeway": rl[0], "x_leeway": rl[1], "y_leeway": rl[2], "z_leeway": rl[3]}
+            if op.get("omit_defaults"):
+                # arguments left out where the documented default (0) is meant
+                kw = {k_: v_ for k_, v_ in kw.items() if not (isinstance(v_, (int, float)) and v_ == 0)}
+                ctx.probe("leeways_left_to_their_defaults")
+            got = ctx.expect_ok("get_agents_at", env.get_agents_at, rp[0], rp[1], rp[2], **kw)
             ctx.check(isinstance(got, list), "answer-type", type(got).__name__)
             ids = [a.id for a in got]
             ctx.event("query", p, lw, ids)
